@@ -5,9 +5,11 @@
 package xpub
 
 //@ struct pipe
+//@   never_closed: sendq
 //@   immutable: p s closeq sendq
 //@
 //@ struct socket
+//@   invariant sendQLen >= 0
 //@   lock Mutex level 20
 //@   guarded_by Mutex: closed pipes sendQLen
 //@
